@@ -132,6 +132,21 @@ def advClient (d : D) (t : Tid) (allowed : Nat → Bool) (fuel : Nat) (why : Str
     | some s' => advClient { d1 with s := s' } t allowed fuel why
     | none => .error s!"client {t} at pc tag {cTag (d.s.cl t)}: model has no step towards {why}"
 
+/-- advance client `t` through Clear's shard steps until it stands before shard `k`
+(or, after the last shard, before the expiry-index reset) -/
+def advClientShard (d : D) (t : Tid) (k : Nat) (fuel : Nat) : Except String D :=
+  match fuel with
+  | 0 => .error s!"client {t}: no progress towards shard {k} of Clear"
+  | fuel + 1 =>
+    match d.s.cl t with
+    | .clrShard _ j =>
+      if j == k then .ok d else
+      let (ch, d1) := clientChoice d t
+      match step d1.cfg d1.s (.client t ch) with
+      | some s' => advClientShard { d1 with s := s' } t k fuel
+      | none => .error s!"client {t}: model has no step for shard {j} of Clear"
+    | pc => if cTag pc == 34 then .ok d else .error s!"client {t} at pc tag {cTag pc}: not inside Clear's shard loop (vpClearShard)"
+
 def offering (d : D) : Option Tid :=
   (List.range 16).find? fun t => match d.s.cl t with | .clrStop _ => true | .clsStop => true | _ => false
 
@@ -231,6 +246,11 @@ def clientAt (d : D) (t : Tid) (hook : Nat) : Except String D := do
   | 22 => if cTag (d.s.cl t) == 39 then .ok d else stepD d (.done t) "done rendezvous (close)"
   | 16 => advClient d t (· == 32) 100000 "vpClearDrained"
   | 17 => advClient d t (· == 33) 8 "vpClearPolicy"
+  | 28 =>
+    -- one shard (observed index i) has been wiped: the client stands before shard i+1
+    match takeObs d 28 with
+    | some ((i, _), d') => advClientShard d' t (i + 1) 1000
+    | none => .error "vpClearShard without its observation"
   | 18 => advClient d t (· == 35) 1000 "vpClearStore"
   | 19 => advClient d t (· == 36) 8 "vpClearMetrics"
   | 20 => advClient d t (· == 37) 8 "vpCloseCleared"
